@@ -4,7 +4,7 @@ import glob, json, os, subprocess
 
 VERIF = os.path.dirname(os.path.dirname(os.path.abspath(__file__)))
 rows = []
-cur = subprocess.run(["git", "-C", VERIF, "log", "-1", "--format=%h", "--", "sim", "check"], capture_output=True, text=True).stdout.strip()
+cur = subprocess.run(["git", "-C", VERIF, "log", "-1", "--format=%h", "--", "sim/checks", "sim/worlds", "sim/hx", "sim/simkern", "sim/weave", "sim/overlay_src"], capture_output=True, text=True).stdout.strip()
 notes = {}
 np = os.path.join(VERIF, "seeded", "NOTES.json")
 if os.path.exists(np):
